@@ -183,18 +183,18 @@ def build_corpus(r, quick):
             continue
         fmt = "elf" if b[:4] == b"\x7fELF" else "pe" if b[:2] == b"MZ" else "macho" if b[:4] in (b"\xcf\xfa\xed\xfe", b"\xce\xfa\xed\xfe") else None
         if fmt:
-            yield from struct_aware(f, b, fmt, {"elf": 0.15, "pe": 2.0, "macho": 5.0}[fmt] if quick else 240.0)
-    for i in range(8 if quick else 60):
+            yield from struct_aware(f, b, fmt, {"elf": 0.15, "pe": 2.0, "macho": 5.0}[fmt] if quick else 140.0)
+    for i in range(8 if quick else 40):
         b, meta = G.synth_pe_imports(r)
         yield ("synth-pe-imports", b, "PE")
-        yield from struct_aware("synth-pe", b, "pe", 0.6 if quick else 60.0)
-    for i in range(4 if quick else 40):
+        yield from struct_aware("synth-pe", b, "pe", 0.6 if quick else 30.0)
+    for i in range(4 if quick else 25):
         b, meta = G.synth_macho(r)
         yield ("synth-macho", b, "MachO")
-        yield from struct_aware("synth-macho", b, "macho", 0.3 if quick else 30.0)
-    for i in range(6 if quick else 60):
+        yield from struct_aware("synth-macho", b, "macho", 0.3 if quick else 20.0)
+    for i in range(6 if quick else 40):
         b, meta = G.synth_elf(r, quirks=())
-        yield from struct_aware("synth-elf", b, "elf", 0.3 if quick else 30.0)
+        yield from struct_aware("synth-elf", b, "elf", 0.3 if quick else 20.0)
     # synthesised ELF: valid, truncated, corrupted (the fully modelled format)
     for i in range(220 if quick else 2500):
         q = G.pick_quirks(r)
